@@ -1,7 +1,8 @@
 #!/venv/bin/python
 """Aggregate C01 calibration records (VERIF_C01_RECORD dir) into per-class tables of the largest
 relative deviation per bucket of t/L (distance to nearest special set incl. prolongations) and
-d/L (distance to surface).  With --write, store 100x envelope into tolerances.json."""
+d/L (distance to surface).  With --write, store 100x envelope into tolerances.json; --merge combines with the committed table
+(bucketwise maximum); --only=Class replaces / merges one class only (after a repair of its numerics)."""
 import glob, json, sys, os
 import numpy as np
 sys.path.insert(0, os.path.dirname(os.path.dirname(os.path.abspath(__file__))))
@@ -63,7 +64,35 @@ if "--write" in sys.argv:
             out[cls]["d"][al] = {k: env(max(v)) for k, v in buckets.items()}
     p = os.path.join(os.path.dirname(os.path.dirname(os.path.abspath(__file__))), "tolerances.json")
     cur = json.load(open(p)) if os.path.exists(p) else {}
+    ENV_CAP = 0.1  # an envelope above 0.1 means the library itself was off by more than 1e-3: no envelope (-1)
+    only = [a.split("=", 1)[1] for a in sys.argv if a.startswith("--only=")]  # e.g. --only=Polyline after a repair of that class
+    if "--merge" in sys.argv and "C01" in cur:
+        # combine with the committed table bucket by bucket (maximum; -1 wins): the deviations are heavy-tailed and a
+        # second calibration run must not tighten what an earlier one measured
+        old = cur["C01"]
+        for cls in set(old) | set(out):
+            if only and cls not in only:
+                out[cls] = old.get(cls, out.get(cls))
+                continue
+            o, n = old.get(cls, {}), out.setdefault(cls, {"default": 1e-6, "t": {}, "d": {}})
+            for kind in ("t", "d"):
+                for near in set(o.get(kind, {})) | set(n.get(kind, {})):
+                    tgt = n[kind].setdefault(near, {})
+                    for k in set(o.get(kind, {}).get(near, {})) | set(tgt):
+                        vals = [v for v in (o.get(kind, {}).get(near, {}).get(k), tgt.get(k)) if v is not None]
+                        tgt[k] = -1.0 if any(v < 0 for v in vals) else max(vals)
+    elif only and "C01" in cur:
+        out = {**cur["C01"], **{c: out[c] for c in only if c in out}}
+    for cls, tabc in out.items():
+        for kind in ("t", "d"):
+            for near, bs in tabc.get(kind, {}).items():
+                for k, v in bs.items():
+                    if v > ENV_CAP:
+                        bs[k] = -1.0
     cur["C01"] = out
-    cur["C01_note"] = "value -1 = bucket not checked (library deviates by more than 50 % there on the unchanged tree: documented-weak region); envelope = min(1, max(1e-6, 100 x largest relative deviation from the quadrature oracle seen per class and bucket on the unchanged tree)); buckets: floor(log10(t/L)) for d < 3 L, floor(log10(d/L)) beyond; see DESIGN.md 4.6"
+    cur["C01_note"] = ("envelope per class x nearest special set x decade of t/L (near field, d < 3 L) and per class x aligned/free x decade of d/L (far field): "
+                       "100 x the largest deviation between library and quadrature seen in calibration on the unchanged tree (several runs combined with --merge, "
+                       "bucketwise maximum; neighbouring decades widen each other), floor 1e-6; -1 = the library itself was off by more than 1e-3 there "
+                       "(envelope would exceed 0.1): no envelope, C01 asserts only the order of magnitude in that bucket; see DESIGN.md 4.6")
     json.dump(cur, open(p, "w"), indent=1, sort_keys=True)
     print("written", p)
